@@ -225,8 +225,9 @@ func runCSPTPServerIP(ctx context.Context, log *slog.Logger,
 				eConn.mu.Unlock()
 				continue
 			}
-			cTxTime0, id, err := udp.ReadTXTimestamp(eConn.c)
+			cTxTime0, id, err := udp.ReadTXTimestampByID(eConn.c, eConn.txid)
 			if err != nil {
+				eConn.txid++
 				cTxTime0 = timebase.Now()
 				log.LogAttrs(ctx, slog.LevelError, "failed to read packet tx timestamp",
 					slog.Any("error", err))
@@ -304,8 +305,9 @@ func runCSPTPServerIP(ctx context.Context, log *slog.Logger,
 				gConn.mu.Unlock()
 				continue
 			}
-			cTxTime1, id, err := udp.ReadTXTimestamp(gConn.c)
+			cTxTime1, id, err := udp.ReadTXTimestampByID(gConn.c, gConn.txid)
 			if err != nil {
+				gConn.txid++
 				cTxTime1 = timebase.Now()
 				log.LogAttrs(ctx, slog.LevelError, "failed to read packet tx timestamp",
 					slog.Any("error", err))
